@@ -42,3 +42,9 @@ CASES = [
       "                for params, prms in zip(p2calc, self.params):\n                    \n                    ftype = prms[\"ftype\"]\n",
       "                for params, prms in zip(p2calc, self.params):\n                    \n                    ftype = prms.get(\"ftype\")\n"),
 ]
+
+CASES += [
+    m("cut-off time of one component becomes the default of the next", "C09-C", C,
+      "        if \"cutoff-time\" in params.keys():\n            ctime = params[\"cutoff-time\"]\n        else:\n            ctime = self.axis.max\n",
+      "        if \"cutoff-time\" in params.keys():\n            self._ctime = params[\"cutoff-time\"]\n        elif not hasattr(self, \"_ctime\"):\n            self._ctime = self.axis.max\n        ctime = self._ctime\n"),
+]
